@@ -213,7 +213,8 @@ def run(ctx):
                why + " ; expected beta + beta_step clamped to 1.0")
     if ok and eq_exit:
         lf = T.linear_form(slack)
-        robust = slack != T.ZERO and set(lf) <= {step, ()} and all(c > 0 for c in lf.values()) and lf.get(step, 0) < 1
+        # slack = a*step (+ a tiny absolute tolerance): strictly between 0 and one step
+        robust = slack != T.ZERO and set(lf) <= {step, ()} and 0 <= lf.get((), 0) <= T.Fraction(1, 10**6) and 0 <= lf.get(step, 0) < 1
         ctx.decide(robust, "C06.fpexit", db.ident, loc_of(db),
                    f"snap to 1.0 within a slack of {T.show(slack)} absorbs the rounding of the accumulated 1/n steps",
                    "the loop exits on beta == 1.0 but the fixed step accumulates beta += 1/n in floating point and only snaps when "
@@ -228,12 +229,48 @@ def run(ctx):
         inner = [a for a in v[2] if a != T.ONE][0]
         if inner[0] == "f" and inner[1] == "max2":
             floor = [a for a in inner[2] if not (a[0] == "a" and "@L" in a[1])]
-            if len(floor) == 1:
-                lf = T.linear_form(T.sub(floor[0], beta))
-                ok = beta not in lf  # floor == beta + (something not involving beta linearly alone)
-                ok = True
+            star = [a for a in inner[2] if a[0] == "a" and "@L" in a[1]]
+            if len(floor) == 1 and len(star) == 1:
+                # floor == beta + m with m the (possibly rescaled) minimum step
+                m_ = T.sub(floor[0], beta)
+                ms = T.atom("min_step")
+                leaves = list(T.phi_leaves(m_))
+                ok = all(l == ms or (T.is_poly(l) and any(b == ms for mono, _c in l[1] for b, _e in mono) and not any(b == beta and e > 0 and len(mono) == 1 for mono, _c in l[1] for b, e in mono)) for l in leaves)
     ctx.decide(ok, "C06.floor", db.ident, loc_of(db), "adaptive: beta' == min(max(beta*, beta + min_step), 1.0)",
                f"adaptive update returns {T.show(v)[:240] if v else None}")
+
+    # ------------------------------------------------ option prologue of sample()
+    from .smcloop import fold_sample
+    sfp = fold_sample(repo, resumed=False, final=False)
+    ep = sfp.ev
+    lpp = [sfp.loop] if sfp.loop is not None else []
+    if lpp:
+        pre = lpp[0]["pre"]
+        bs = pre.get("beta_step")
+        n_st = T.atom("n_steps")
+        ok_bs = bs is not None and T.select(bs, ("is", n_st, T.NONE), False) == T.div(T.ONE, n_st)
+        ctx.decide(ok_bs, "C06.opts", sample.ident, loc_of(sample), "fixed step == 1 / n_steps", f"the fixed temperature step is {T.show(bs)[:100] if bs else None}, not 1 / n_steps: a schedule of n steps does not take n iterations", disc="beta_step")
+        ms = pre.get("min_step")
+        mn, mx = T.atom("min_step"), T.atom("max_n_steps")
+        ok_ms = ms is not None and T.select(ms, ("is", mn, T.NONE), False) == mn \
+            and T.select(T.select(ms, ("is", mn, T.NONE), True), ("is", mx, T.NONE), True) == T.ZERO
+        capped = T.select(T.select(ms, ("is", mn, T.NONE), True), ("is", mx, T.NONE), False) if ms is not None else None
+        ok_cap = capped == T.div(T.ONE, mx)
+        ctx.decide(ok_ms and ok_cap, "C06.opts", sample.ident, loc_of(sample), "minimum step: the user's value if given, 1 / max_n_steps under a step cap, otherwise none",
+                   f"the minimum step before the loop is {T.show(ms)[:200] if ms else None}", disc="min_step")
+        ams = ep.heap.get((SELF, "adaptive_min_step"))
+        ok_a = ams is not None and T.select(ams, ("is", mn, T.NONE), False) == T.FALSE and T.select(T.select(ams, ("is", mn, T.NONE), True), ("is", mx, T.NONE), False) == T.TRUE \
+            and T.select(T.select(ams, ("is", mn, T.NONE), True), ("is", mx, T.NONE), True) == T.FALSE
+        ctx.decide(ok_a, "C06.opts", sample.ident, loc_of(sample), "the minimum step is rescaled per iteration only when it was derived from max_n_steps",
+                   f"adaptive_min_step is {T.show(ams)[:160] if ams else None}", disc="adaptive_min_step")
+        ctx.decide(ep.heap.get((SELF, "adaptive")) == T.atom("adaptive"), "C06.opts", sample.ident, loc_of(sample), "the adaptive flag used by determine_beta is this call's option",
+                   "determine_beta reads self.adaptive, which sample() does not set from its adaptive argument", disc="adaptive")
+    if upd and isinstance(upd[0].ast, ast.Assign) and isinstance(upd[0].ast.value, ast.Call):
+        kwn = {k.arg: (k.value.id if isinstance(k.value, ast.Name) else None) for k in upd[0].ast.value.keywords}
+        posn = dict(zip(db.params[1:], [a.id if isinstance(a, ast.Name) else None for a in upd[0].ast.value.args]))
+        tol = kwn.get("beta_tolerance", posn.get("beta_tolerance"))
+        ctx.decide(tol == "beta_tolerance", "C06.opts", sample.ident, loc_of(sample, upd[0].ast), "the requested bisection tolerance is handed to determine_beta",
+                   "sample(beta_tolerance=...) is not passed on to determine_beta: the search always uses the default tolerance", disc="tolerance")
 
     # ------------------------------------------------ division by a definite zero
     n_paths = 0
@@ -345,6 +382,12 @@ MUTANTS = [
     M("division by zero denominator", _B, "beta_min = 1.0\n            target_eff", "beta_min = 1.0\n            min_step = min_step / (beta_max - beta_min)\n            target_eff", "C06.div0"),
 ]
 MUTANTS += [
+    M("fixed step is zero", _B, "beta_step = 1 / n_steps", "beta_step = 0 / n_steps", "C06.opts"),
+    M("default minimum step is a full step", _B, "min_step = 0.0\n                self.adaptive_min_step = False", "min_step = 1.0\n                self.adaptive_min_step = False", "C06.opts"),
+    M("cap-derived minimum step halved", _B, "min_step = 1 / max_n_steps\n", "min_step = 0.5 / max_n_steps\n", "C06.opts"),
+    M("snap far too early", _B, "if beta >= 1.0 - 0.5 * beta_step:", "if beta >= 0.0 - 0.5 * beta_step:", ("C06.fpexit", "C06.clamp")),
+    M("minimum step subtracted", _B, "beta = max(beta_star, beta_prev + min_step)", "beta = max(beta_star, beta_prev - min_step)", "C06.floor"),
+    M("tolerance option not forwarded", _B, "min_step,\n                    beta_tolerance=beta_tolerance,\n                )", "min_step,\n                )", "C06.opts"),
     M("rescale by the step actually taken, guard on the proposal", _B, "if self.adaptive_min_step and beta_star < 1.0:\n                min_step = min_step * (1 - beta_prev) / (1 - beta_star)\n            beta = max(beta_star, beta_prev + min_step)\n            beta = min(beta, 1.0)",
       "beta = min(max(beta_star, beta_prev + min_step), 1.0)\n            if self.adaptive_min_step and beta_star < 1.0:\n                min_step = min_step * (1 - beta_prev) / (1 - beta)", "C06.guard"),
 ]
